@@ -318,6 +318,26 @@ func TestC11_Grid(t *testing.T) {
 			}
 		}
 	}
+	// large plaintexts (a few hundred group memberships): the ciphertext text is ONE unbroken base64 run of more than
+	// 4 KiB / 64 KiB / 128 KiB characters — sizes around what buffered readers and tokenisers cap at
+	for bi, n := range []int{3071, 3072, 4096, 49151, 49152, 49153, 65535, 65536, 98304, 100000} {
+		for ai, alg := range []string{h.DataAlgs[0], h.DataAlgs[3], h.DataAlgs[2]} {
+			plain := make([]byte, n)
+			for j := range plain {
+				plain[j] = byte(j*13 + bi)
+			}
+			ivn := 16
+			if h.IsGCM(alg) {
+				ivn = 12
+			}
+			e := h.EncSpec{DataAlg: alg, Transport: h.Transports[(bi+ai)%3], Digest: "-", Detached: (bi+ai)%2 == 0, To: h.CertRef{Key: "E1", Window: "wide"}, Key: bytes.Repeat([]byte{byte(bi + 1)}, h.KeyLen(alg)), IV: bytes.Repeat([]byte{byte(ai + 1)}, ivn)}
+			c := C11Case{Enc: e, Plain: plain, KeyMode: []string{"tls", "setter", "custom"}[ai]}
+			if err := c.build(); err != nil {
+				t.Fatalf("harness: %v", err)
+			}
+			cases = append(cases, c)
+		}
+	}
 	h.RunCases(t, "C11", cases, checkC11)
 }
 
